@@ -83,7 +83,7 @@ class Runner(object):
     code = compile(inst, '<instr>', 'exec')
     self.env = env = tapemod.Env(cap)
     self.rec = rec = access.SeqRecorder()
-    g = {'c': env.c, 'it': env.it, 'it2': env.it2, 'it3': env.it3, 't': env.t, 'cm': env.cm, 'E': tapemod.E, 'E2': E2, 'mark': env.mark, 'G': 9}
+    g = {'c': env.c, 'it': env.it, 'it2': env.it2, 'it3': env.it3, 't': env.t, 'cm': env.cm, 'E': tapemod.E, 'E2': E2, 'mark': env.mark, 'G': 9, 'p': tapemod.Obj()}
     g.update(rec.namespace())
     exec(code, g)  # pylint:disable=exec-used
     self.f = g['f']
